@@ -33,3 +33,9 @@ Theorem b32_encode_standard : forall b custom s, bytes_ok b -> Lemmas.Base32.cus
 Proof.
   unfold b32_encode. rewrite b32_alphabet_rfc. exact Lemmas.Base32.encode_standard.
 Qed.
+
+Theorem b32_decode_custom_foreign : forall s c ch, In ch s -> ~ In ch c -> ch <> rfc_pad ->
+  b32_decode s (Some c) = Err ValueError.
+Proof.
+  unfold b32_decode. rewrite b32_alphabet_rfc, b32_pad_char_rfc. exact Lemmas.Base32.decode_custom_foreign.
+Qed.
